@@ -21,7 +21,7 @@ PROP = "C08"
 def one_pass(tier, esm, verdicts, stats):
     tag = "esm" if esm else "plain"
     cwd = vlib.BUILD                       # depth 2 when /verif is /verif: `..` chains reach the root
-    cfg_path = os.path.join(vlib.BUILD, "paths_cfg_%s.json" % tag)
+    cfg_path = os.path.join(vlib.TMP, "paths_cfg_%s.json" % tag)
     comps = [list(c) for c in cwd.strip("/").split("/")]
     json.dump({"cwd": comps, "esm": esm}, open(cfg_path, "w"))
     features = ("import-esm",) if esm else ()
@@ -43,11 +43,11 @@ def one_pass(tier, esm, verdicts, stats):
         raise vlib.ToolError("no cases produced by MC_Paths")
     stats["states"] += r.distinct
     stats["transitions"] += r.generated
-    cases_path = os.path.join(vlib.BUILD, "paths_cases_%s.ndjson" % tag)
+    cases_path = os.path.join(vlib.TMP, "paths_cases_%s.ndjson" % tag)
     vlib.write_ndjson(cases_path, cases)
 
     # REPLAY
-    obs_path = os.path.join(vlib.BUILD, "paths_obs_%s.ndjson" % tag)
+    obs_path = os.path.join(vlib.TMP, "paths_obs_%s.ndjson" % tag)
     import subprocess
     p = subprocess.run([rt, "paths", cwd, cases_path, obs_path])
     if p.returncode != 0:
